@@ -1,6 +1,8 @@
 use std::str::FromStr;
 
-use emmylua_parser::{LuaAstNode, LuaAstToken, LuaBlock, LuaChunk, LuaDocTagDiagnostic};
+use emmylua_parser::{
+    LuaAstNode, LuaAstToken, LuaBlock, LuaChunk, LuaComment, LuaDocTagDiagnostic, LuaSyntaxKind,
+};
 use rowan::TextRange;
 
 use crate::{
@@ -32,6 +34,10 @@ fn analyze_diagnostic_disable(
     diagnostic: LuaDocTagDiagnostic,
 ) -> Option<()> {
     let comment = analyzer.comment.clone();
+    if is_in_empty_body(&comment) {
+        // nothing else is in the enclosing block, so there is nothing to disable
+        return Some(());
+    }
     let owner_block = comment.ancestors::<LuaBlock>().next()?;
     let owner_block_range = owner_block.get_range();
     let is_file_disable = owner_block.get_parent::<LuaChunk>().is_some();
@@ -67,6 +73,31 @@ fn analyze_diagnostic_disable(
     }
 
     Some(())
+}
+
+/// A body without statements has no `LuaBlock` node, so a comment that is the only content of
+/// `do end`, a loop, an `if` clause or a function is a direct child of that construct. Its nearest
+/// `LuaBlock` ancestor is then the block *around* the construct, not the (empty) block it is in.
+fn is_in_empty_body(comment: &LuaComment) -> bool {
+    let Some(parent) = comment.syntax().parent() else {
+        return false;
+    };
+    let owns_block = matches!(
+        parent.kind().into(),
+        LuaSyntaxKind::DoStat
+            | LuaSyntaxKind::WhileStat
+            | LuaSyntaxKind::RepeatStat
+            | LuaSyntaxKind::IfStat
+            | LuaSyntaxKind::ElseIfClauseStat
+            | LuaSyntaxKind::ElseClauseStat
+            | LuaSyntaxKind::ForStat
+            | LuaSyntaxKind::ForRangeStat
+            | LuaSyntaxKind::ClosureExpr
+    );
+    owns_block
+        && !parent
+            .children()
+            .any(|child| child.kind() == LuaSyntaxKind::Block.into())
 }
 
 fn analyze_diagnostic_disable_next_line(
